@@ -219,7 +219,7 @@ func checkC12(w *World, r *Report) {
 					found := false
 					ast.Inspect(is, func(x ast.Node) bool {
 						if ce, ok := x.(*ast.CallExpr); ok {
-							if c := calleeOf(pp, ce); c != nil && c.Name() == "UsesRoot" && !found {
+							if c := calleeOf(pp, ce); c != nil && nm(c) == "UsesRoot" && !found {
 								found = true
 							}
 						}
@@ -305,7 +305,7 @@ func checkC12(w *World, r *Report) {
 		var kinds []string
 		ast.Inspect(fd.Body, func(x ast.Node) bool {
 			if ce, ok := x.(*ast.CallExpr); ok {
-				if c := calleeOf(p, ce); c != nil && c.Name() == "ChildrenByType" && objOfIdent(p, ce.Fun.(*ast.SelectorExpr).X) == paramObj(p, fd, 0) {
+				if c := calleeOf(p, ce); c != nil && nm(c) == "ChildrenByType" && objOfIdent(p, ce.Fun.(*ast.SelectorExpr).X) == paramObj(p, fd, 0) {
 					if v, ok := ConstInt(p, ce.Args[0]); ok {
 						kinds = append(kinds, names[v])
 					}
@@ -464,7 +464,7 @@ func checkC15(w *World, r *Report) {
 					// the auxiliary path-evaluation machines (warnings mode only) report through saveWarning;
 					// the expression itself is compiled, and its error raised, by the expr machine
 					if c2, ok := y.(*ast.CallExpr); ok && strings.Contains(f.Pkg().Path(), "path_eval") {
-						if g := calleeOf(p, c2); g != nil && g.Name() == "saveWarning" {
+						if g := calleeOf(p, c2); g != nil && nm(g) == "saveWarning" {
 							usesErr := false
 							ast.Inspect(c2, func(z ast.Node) bool {
 								if id, ok := z.(*ast.Ident); ok && p.TypesInfo.Uses[id] == errObj {
@@ -487,7 +487,7 @@ func checkC15(w *World, r *Report) {
 					return true
 				})
 				c := fmt.Sprintf("%s: %s error", funcDeclName(fd), f.Name())
-				if !surfaced && f.Name() == "NewExprMachineWithCustomFunctions" {
+				if !surfaced && nm(f) == "NewExprMachineWithCustomFunctions" {
 					r.Reviewed("R15.1", c, ce.Pos(), "documented silent fallback from the extended must to the standard must, whose error is surfaced")
 					return true
 				}
@@ -613,13 +613,13 @@ func checkC15(w *World, r *Report) {
 			for _, in := range b.Instrs {
 				switch x := in.(type) {
 				case *ssa.Call:
-					if x.Call.StaticCallee() != nil && x.Call.StaticCallee().Name() == "getPfxName" {
+					if x.Call.StaticCallee() != nil && nm(x.Call.StaticCallee()) == "getPfxName" {
 						lookup = b
 					}
 				case *ssa.BinOp:
 					if x.Op == token.EQL || x.Op == token.NEQ {
 						for _, side := range []ssa.Value{x.X, x.Y} {
-							if c, ok := side.(*ssa.Call); ok && c.Call.IsInvoke() && c.Call.Method.Name() == "Prefix" {
+							if c, ok := side.(*ssa.Call); ok && c.Call.IsInvoke() && nm(c.Call.Method) == "Prefix" {
 								for _, ref := range *x.Referrers() {
 									if _, isIf := ref.(*ssa.If); isIf {
 										ownTest = b
@@ -645,7 +645,7 @@ func checkC15(w *World, r *Report) {
 		bad := false
 		ast.Inspect(gfd.Body, func(x ast.Node) bool {
 			if ce, ok := x.(*ast.CallExpr); ok {
-				if c := calleeOf(pp, ce); c != nil && c.Name() == "UsesRoot" {
+				if c := calleeOf(pp, ce); c != nil && nm(c) == "UsesRoot" {
 					bad = true
 				}
 			}
@@ -657,7 +657,7 @@ func checkC15(w *World, r *Report) {
 		usesRoot := false
 		ast.Inspect(gfd.Body, func(x ast.Node) bool {
 			if ce, ok := x.(*ast.CallExpr); ok {
-				if c := calleeOf(pp, ce); c != nil && c.Name() == "Root" {
+				if c := calleeOf(pp, ce); c != nil && nm(c) == "Root" {
 					usesRoot = true
 				}
 			}
@@ -725,7 +725,7 @@ func checkC15(w *World, r *Report) {
 				sets := false
 				ast.Inspect(is.Body, func(y ast.Node) bool {
 					if ce, ok := y.(*ast.CallExpr); ok {
-						if f := calleeOf(lp, ce); f != nil && f.Name() == "SetError" && len(ce.Args) == 1 && objOfIdent(lp, ce.Args[0]) == errObj {
+						if f := calleeOf(lp, ce); f != nil && nm(f) == "SetError" && len(ce.Args) == 1 && objOfIdent(lp, ce.Args[0]) == errObj {
 							sets = true
 						}
 					}
